@@ -281,6 +281,9 @@ func (r *SparseFloat64Matrix) Jacobian(f func(ConstVector) ConstVector, x_ Magic
     for j := 0; j < m; j++ {
       if s := y.ConstAt(i).GetDerivative(j); s != 0.0 {
         r.At(i, j).SetFloat64(s)
+      } else if r.ConstAt(i, j).GetFloat64() != 0.0 {
+        // r might hold the result of an earlier call
+        r.At(i, j).SetFloat64(0.0)
       }
     }
   }
@@ -304,6 +307,9 @@ func (r *SparseFloat64Matrix) Hessian(f func(ConstVector) ConstScalar, x_ MagicV
     for j := 0; j < m; j++ {
       if s := y.GetHessian(i, j); s != 0.0 {
         r.At(i, j).SetFloat64(s)
+      } else if r.ConstAt(i, j).GetFloat64() != 0.0 {
+        // r might hold the result of an earlier call
+        r.At(i, j).SetFloat64(0.0)
       }
     }
   }
